@@ -69,7 +69,7 @@ func verifyFuncs(P *Program, db *ContractDB, names []string, lemmas []string, wo
 	trusted := map[string]bool{}
 	for _, n := range names {
 		con := db.Funcs[n]
-		fn := P.Funcs[n]
+		fn := P.Funcs[strings.TrimSuffix(n, "@step")] // "f@step": thread-modular contract variant of f
 		if con.Trusted {
 			trusted[n] = true
 			continue
@@ -81,6 +81,9 @@ func verifyFuncs(P *Program, db *ContractDB, names []string, lemmas []string, wo
 		rr.funcs = append(rr.funcs, n)
 		tg := time.Now()
 		vc := VerifyFunc(g, fn, con, 4000)
+		if strings.HasSuffix(n, "@step") {
+			vc.renameObligations(n)
+		}
 		if os.Getenv("GOVC_TIMING") != "" {
 			fmt.Fprintf(os.Stderr, "gen %-50s %6.1fs paths=%d feas=%d pruned=%d obls=%d\n", n, time.Since(tg).Seconds(), vc.paths, vc.nFeas, vc.pruned, len(vc.obls))
 		}
